@@ -605,6 +605,65 @@ def repeated_calls():
     return out
 
 
+# ---- sub-routines registered through the public API (Compiler.add_sub_routine), with their C text as AST ------------------
+def user_subs():
+    """(name, return type spelling, [(type spelling, parameter name)], body AST). Each `return` ends its path (an early return
+    that is followed by further statements is a listed deviation of the compiler and is avoided here)."""
+    L = lambda k: ("lit", str(k), k, (True, 32))
+    v32 = lambda n: ("var", n, (False, 32))
+    out = []
+    out.append(("vf_low8", "uint8_t", [("uint32_t", "v")], [("ret", ("shift", ">>", v32("v"), L(4)))]))
+    out.append(("vf_low16", "uint16_t", [("uint32_t", "v")], [("ret", ("shift", ">>", v32("v"), L(4)))]))
+    out.append(("vf_neg8", "int8_t", [("int32_t", "v")], [("ret", ("var", "v", (True, 32)))]))
+    out.append(("vf_wrap8", "uint32_t", [("uint32_t", "v")], [("ret", ("call", "vf_low8", [v32("v")], (False, 8)))]))          # return f(x): inner type narrower
+    out.append(("vf_wrap16", "uint64_t", [("uint32_t", "v")], [("ret", ("call", "vf_low16", [v32("v")], (False, 16)))]))
+    out.append(("vf_wrapneg", "int64_t", [("int32_t", "v")], [("ret", ("call", "vf_neg8", [("var", "v", (True, 32))], (True, 8)))]))
+    out.append(("vf_sel", "uint32_t", [("uint32_t", "x"), ("uint32_t", "go")],
+                [decl("uint32_t", "y", ("shift", ">>", v32("x"), L(1))),
+                 ("if", ("cmp", "!=", v32("go"), L(0)), [("ret", call("clz32", v32("y")))], [("ret", L(0))])]))                   # return f(y) inside an arm
+    out.append(("vf_sel2", "uint32_t", [("uint32_t", "x"), ("uint32_t", "go")],
+                [("if", ("cmp", "!=", v32("go"), L(0)), [("ret", ("call", "vf_low8", [v32("x")], (False, 8)))],
+                  [("ret", ("call", "vf_low16", [v32("x")], (False, 16)))])]))                                                    # tail calls in both arms
+    out.append(("vf_sum3", "int32_t", [("int8_t", "a"), ("uint16_t", "b"), ("int64_t", "c")],
+                [("ret", ("bin", "+", ("bin", "+", ("var", "a", (True, 8)), ("var", "b", (False, 16))), ("var", "c", (True, 64))))]))
+    out.append(("vf_loopcnt", "uint32_t", [("uint32_t", "n")],
+                [decl("uint32_t", "t", L(0)), ("for", "i", ("bin", "&", v32("n"), L(7)), [("assign", v32("t"), "+=", call("clz32", ("shift", ">>", v32("n"), ("var", "i", (False, 32)))))]),
+                 ("ret", v32("t"))]))
+    return out
+
+
+# a body `return <signed value narrower than 64 bit>;` in a routine with a wider signed return type: the compiler copies every
+# returned value into the 64-bit `ret_val` through a conversion to ut64, which zero-extends (the listed conversion defect)
+USER_SUB_FEATURES = {"vf_wrapneg": {"signed_return_widened"}}
+
+
+def register_user_subs(c):
+    """registers them on the real compiler (once), tells the serialiser their signatures, returns the C-side definitions and
+    caller programs"""
+    csubs, progs = [], []
+    subs = user_subs()
+    for name, rts, params, body in subs:
+        rt = T[rts]
+        pts = [T[sp] for sp, _ in params]
+        semcheck.CALL_SIGS[name] = (pts, rt)
+        gen.USER_CALL_PARAMS[name] = pts
+        if name not in c.sub_routines:
+            with rc.quiet():
+                c.add_sub_routine(name, rts, [f"{sp} {n}" for sp, n in params], gen.prog_src(body))
+        csubs.append(["csub", Q(name), [[Q(n), [T[sp][0], T[sp][1]]] for sp, n in params], [rt[0], rt[1]], semcheck.stmts(body)])
+    srcs = [reg("RsV"), reg("RssV"), ("cast", "int8_t", T["int8_t"], reg("RtV")), ("un", "-", reg("RsV"))]
+    for name, rts, params, body in subs:
+        rt = T[rts]
+        for x in srcs:
+            args = [x] + [("bin", "&", reg("RvV"), ("lit", "1", 1, (True, 32)))] * (len(params) - 1)
+            cl = ("call", name, args, rt)
+            progs.append([wr("RddV", cl)])
+            progs.append([decl("int64_t", "r", cl), wr("RddV", var("r", "int64_t"))])
+        progs.append([decl("uint32_t", "r", ("call", name, [reg("RsV")] + [("lit", "0", 0, (True, 32))] * (len(params) - 1), rt)), wr("RdV", var("r", "uint32_t")),
+                      wr("ReV", ("call", name, [reg("RtV")] + [("lit", "1", 1, (True, 32))] * (len(params) - 1), rt))])
+    return csubs, progs
+
+
 def explicit_rw_mixed(ast) -> bool:
     reads, writes = set(), set()
     gen._regs(list(ast), reads, writes)
@@ -636,6 +695,10 @@ def run_prop(prop: str, tier: str, replay=None) -> int:
         asts = programs_C08(rng, tier) + repeated_calls() + stream_generated(rng, n, n // 3, gen.Cfg(hybrids=0.5, max_stmts=3, max_depth=3))
     else:
         asts = programs_C09(rng, tier) + dead_arm_calls() + stream_generated(rng, 40, 40, gen.Cfg(hybrids=0.0, literals=0.5, max_stmts=2))
+    user_csubs = []
+    if prop in ("C08", "C03"):
+        user_csubs, uprogs = register_user_subs(rc.compiler("READ_STATEMENTS"))
+        asts = uprogs + asts
     if replay:
         rp = json.load(open(replay))
         if "ast" in rp:
@@ -649,6 +712,10 @@ def run_prop(prop: str, tier: str, replay=None) -> int:
         items.append({"ast": a, "src": gen.prog_src(a), "features": f})
     if prop == "C09" and not replay:
         items += division_items()
+    for it in items:
+        for un, uf in USER_SUB_FEATURES.items():
+            if un + "(" in it["src"]:
+                it["features"] |= uf        # carve-out classes a registered routine's BODY falls into
     parsed = rc.parse_programs([it["src"] for it in items])
     c = rc.compiler("READ_STATEMENTS")
     for it, pr in zip(items, parsed):
@@ -672,7 +739,7 @@ def run_prop(prop: str, tier: str, replay=None) -> int:
         for cn, ts in callee_tmps.items():
             if ts & mine and (cn + "(") in it["src"]:
                 it["features"].add("callee_tmp")   # a caller temporary has the name of a temporary the callee's body sets
-    reqs = semcheck.sem_requests(items, nstates, seed() + 1, csubs=all_csubs())
+    reqs = semcheck.sem_requests(items, nstates, seed() + 1, csubs=all_csubs() + user_csubs)
     allreps = Driver().run(pre + [r for _, r in reqs])
     reps = allreps[len(pre):]
     sub_problems = []
@@ -754,6 +821,15 @@ def run_prop(prop: str, tier: str, replay=None) -> int:
                 res.known(f"{k['id']}: {k['what']} [witness: {k['witness']} — {detail}] ({k['site']})")
             else:
                 res.notes.append(f"known finding {k['id']} no longer reproduces on its witness")
+
+    # listed findings without a replayable one-line witness (they need registered routines): reported when this run hit them
+    for k in known_ids.values():
+        if not k.get("witness"):
+            n_hit = sum(known_by_feature.get(f, 0) for f in k.get("feature_any", []))
+            if n_hit:
+                res.known(f"{k['id']}: {k['what']} [{n_hit} failing programs of this run, e.g. {k.get('witness_text', '')}] ({k['site']})")
+            else:
+                res.notes.append(f"known finding {k['id']} was not hit in this run")
 
     def search():
         for v in viol[:4]:
